@@ -178,3 +178,97 @@ func EventCounts(o *vrt.Obs, events []mem.Event) {
 		o.Count("ev_"+e.Kind, 1)
 	}
 }
+
+// CheckSafety is the offline checker for histories that contain faulty sessions (property C02). It
+// looks at the whole event log so far: a message is reported sent only after the peer's handler
+// completely received it, "rejected" reports only for messages the peer holds, everything handed
+// to a handler is byte-identical to what was queued, nothing is delivered twice.
+func CheckSafety(o *vrt.Obs, sc *Scenario, events []mem.Event) {
+	recv := map[string]string{"A": "B", "B": "A"}
+	delivered := map[string]mem.Event{} // receiver|mid -> first successful ProcessInbound
+	for _, e := range events {
+		switch e.Kind {
+		case mem.EvProcessInbound:
+			truth, ok := sc.Truth[e.MID]
+			switch {
+			case !ok:
+				o.Violate("unknown-mid-delivered", "ProcessInbound for MID %q that nobody queued", e.MID)
+			case e.Hash != mem.Hash(truth):
+				o.Violate("content-mismatch", "message %s handed to station %s differs from the queued bytes (session %d)", e.MID, e.Station, e.Session)
+			}
+			k := e.Station + "|" + e.MID
+			if prev, dup := delivered[k]; dup {
+				o.Violate("delivered-twice", "message %s handed to station %s twice (sessions %d and %d)", e.MID, e.Station, prev.Session, e.Session)
+			} else {
+				delivered[k] = e
+			}
+			o.Count("deliveries_checked", 1)
+		case mem.EvSetSent:
+			d, ok := delivered[recv[e.Station]+"|"+e.MID]
+			if !ok || d.Seq > e.Seq {
+				if e.Flag {
+					o.Violate("rejected-without-holding", "message %s reported sent(rejected) at station %s in session %d although the peer does not hold it", e.MID, e.Station, e.Session)
+				} else {
+					o.Violate("sent-without-delivery", "message %s reported successfully sent at station %s in session %d although the peer's handler had not completely received it", e.MID, e.Station, e.Session)
+				}
+			}
+			o.Count("setsent_checked", 1)
+		}
+	}
+}
+
+// CheckConverged is evaluated after the first clean session that completed: every non-deferred
+// message delivered exactly once and reported sent exactly once, nothing pending.
+func CheckConverged(o *vrt.Obs, sc *Scenario, a, b *mem.Station, events []mem.Event) {
+	cnt := map[string]int{}
+	for _, e := range events {
+		if e.Kind == mem.EvProcessInbound || e.Kind == mem.EvSetSent {
+			cnt[e.Kind+"|"+e.Station+"|"+e.MID]++
+		}
+	}
+	pend := map[string]bool{}
+	for _, m := range append(a.Pending(), b.Pending()...) {
+		pend[m] = true
+	}
+	chk := func(ms []MsgSpec, s, r string) {
+		for _, m := range ms {
+			if sc.Policy[m.MID] == fbb.Defer {
+				if !pend[m.MID] || cnt[mem.EvProcessInbound+"|"+r+"|"+m.MID] != 0 {
+					o.Violate("deferred-lost", "always-deferred message %s is not pending any more or was delivered", m.MID)
+				}
+				continue
+			}
+			if n := cnt[mem.EvProcessInbound+"|"+r+"|"+m.MID]; n != 1 {
+				o.Violate("converged-delivery-count", "after the completing session message %s was delivered %d times", m.MID, n)
+			}
+			if n := cnt[mem.EvSetSent+"|"+s+"|"+m.MID]; n != 1 {
+				o.Violate("converged-setsent-count", "after the completing session message %s was reported sent %d times", m.MID, n)
+			}
+			if pend[m.MID] {
+				o.Violate("converged-still-pending", "after the completing session message %s is still pending", m.MID)
+			}
+			o.Count("converged_messages_checked", 1)
+		}
+	}
+	chk(sc.MsgsA, "A", "B")
+	chk(sc.MsgsB, "B", "A")
+}
+
+// CheckReturned records the termination facts of one (possibly faulty) session.
+func CheckReturned(o *vrt.Obs, res Result, what string) {
+	if res.A.Panic != nil {
+		o.Violations = append(o.Violations, vrt.PanicViolation(res.A.Panic, []byte(res.A.Stack)))
+	}
+	if res.B.Panic != nil {
+		o.Violations = append(o.Violations, vrt.PanicViolation(res.B.Panic, []byte(res.B.Stack)))
+	}
+	if res.Link.Deadlock {
+		o.Violate("hang:deadlock", "%s: both stations blocked in Read with nothing in flight and the link intact", what)
+	}
+	if res.Killed {
+		o.Violate("hang:"+strings.Join(strings.Fields(res.KillWhy), "_"), "%s: %s", what, res.KillWhy)
+	}
+	if !res.Link.Closed[0] || !res.Link.Closed[1] {
+		o.Violate("conn-not-closed", "%s: connection closed flags after Exchange: A=%v B=%v", what, res.Link.Closed[0], res.Link.Closed[1])
+	}
+}
